@@ -1,4 +1,4 @@
-//! Rewrite rules R0..R21 (DESIGN.md 2.1). Every rule is a syn visitor that emits text edits; a rule is
+//! Rewrite rules R0..R22 (DESIGN.md 2.1). Every rule is a syn visitor that emits text edits; a rule is
 //! re-run on the re-parsed text until it finds nothing more, so nested occurrences are handled.
 
 use crate::{apply_edits, br, nr, txt, Ctx, Edit};
@@ -19,6 +19,7 @@ pub fn run_all(text: &str, ctx: &Ctx, log: &mut BTreeMap<&'static str, usize>) -
         ("R3", r3),
         ("R12", r12),
         ("R21", r21),
+        ("R22", r22),
         ("R19", r19),
         ("R20", r20),
         ("R11", r11),
@@ -1662,4 +1663,54 @@ impl<'a, 'ast> Visit<'ast> for R21<'a> {
 }
 fn r21(src: &str, f: &syn::File, _c: &Ctx, e: &mut Vec<Edit>) {
     R21 { src, edits: e }.visit_file(f);
+}
+
+// ---------------------------------------------------------------------------------------------- R22
+// `E.parse::<Factors>()` / `E.parse::<Components>()`  ->  `parse_factors_(E)` / `parse_components_(E)`: the text parsers are outside
+// both verifiers; the call gets a name so that it can be given an (assumed, uninterpreted) contract `r == parse_.._spec(E@)`.
+struct R22<'a> {
+    src: &'a str,
+    edits: &'a mut Vec<Edit>,
+}
+impl<'a, 'ast> Visit<'ast> for R22<'a> {
+    fn visit_expr_method_call(&mut self, m: &'ast syn::ExprMethodCall) {
+        if m.method == "parse" && m.args.is_empty() {
+            if let Some(tf) = &m.turbofish {
+                let t = txt(self.src, tf).replace(' ', "");
+                let name = if t == "::<Factors>" { Some("parse_factors_") } else if t == "::<Components>" { Some("parse_components_") } else { None };
+                if let Some(n) = name {
+                    let (s, e) = nr(m);
+                    let recv = txt(self.src, &*m.receiver).split_whitespace().collect::<Vec<_>>().join("");
+                    self.edits.push(Edit { start: s, end: e, text: format!("{}({})", n, recv), rule: "R22" });
+                    return;
+                }
+            }
+        }
+        visit::visit_expr_method_call(self, m);
+    }
+    fn visit_type_path(&mut self, t: &'ast syn::TypePath) {
+        self.fix_result(t);
+        visit::visit_type_path(self, t);
+    }
+}
+impl<'a> R22<'a> {
+    /// `Result<T, EpbdError>` (std's Result, as written in files that do not import the crate's alias) is the alias `Result<T>`
+    fn fix_result(&mut self, t: &syn::TypePath) {
+        if let Some(seg) = t.path.segments.last() {
+            if seg.ident == "Result" && t.path.segments.len() == 1 {
+                if let syn::PathArguments::AngleBracketed(ab) = &seg.arguments {
+                    if ab.args.len() == 2 && txt(self.src, &ab.args[1]).trim() == "EpbdError" {
+                        let (s, _) = nr(&ab.args[0]);
+                        let e0 = nr(&ab.args[0]).1;
+                        let e1 = nr(&ab.args[1]).1;
+                        let _ = s;
+                        self.edits.push(Edit { start: e0, end: e1, text: String::new(), rule: "R22" });
+                    }
+                }
+            }
+        }
+    }
+}
+fn r22(src: &str, f: &syn::File, _c: &Ctx, e: &mut Vec<Edit>) {
+    R22 { src, edits: e }.visit_file(f);
 }
